@@ -417,6 +417,7 @@ def transpile_structure(
             return (
                 indent_str("ctx.inputs.pop()", indent)
                 + indent_str("ctx.context_values.pop()", indent)
+                + indent_str("ctx.stacks.pop()", indent)
                 + indent_str("return stack", indent)
             )
         elif struct.parent_structure == vyxal.structure.Lambda:
@@ -424,6 +425,8 @@ def transpile_structure(
                 indent_str("ret = [pop(stack, 1, ctx=ctx)]", indent)
                 + indent_str("ctx.context_values.pop()", indent)
                 + indent_str("ctx.inputs.pop()", indent)
+                + indent_str("ctx.stacks.pop()", indent)
+                + indent_str("ctx.function_stack.pop()", indent)
                 + indent_str("return ret", indent)
             )
         else:
